@@ -163,6 +163,15 @@ def pred_ranks(x, alg):
         return "0 < norm(x) < 1e-12"
     if alg == "eig" and 0 < nx < 1e-3:
         return "algorithm='eig' and norm(x) < 1e-3 (squared singular values below the 1e-8 substituted for negative eigenvalues)"
+    if alg == "eig" and nx > 0:
+        # the same substitution (negative Gram eigenvalue -> 1e-8, i.e. a spurious singular value 1e-4 in absolute terms) at ordinary norms:
+        # on a numerically rank-deficient unfolding (e.g. zero padding) that also has GENUINE singular values below 1e-4, the spurious value
+        # outranks them and a prescribed rank keeps it instead
+        for M in list(tt_unfoldings(x)) + list(mode_unfoldings(x)):
+            sv = svals(M)
+            if len(sv) >= 2 and sv[0] > 0 and sv[-1] <= 1e-7 * sv[0] and np.any((sv > 1e-9 * sv[0]) & (sv < 1.05e-4)):
+                return ("algorithm='eig', a numerically rank-deficient unfolding with genuine singular values below 1e-4 (outranked by the "
+                        "spurious 1e-4 substituted for negative Gram eigenvalues)")
     return "none of: tiny norm, eig with small norm"
 
 
